@@ -60,6 +60,14 @@ def _normalize(s):
 
 
 def apply_edit(root, m):
+    if m.get("transform") == "rename-locals":
+        p = subprocess.run(
+            [sys.executable, os.path.join(VERIF, "tools", "benign_rename.py"), root, "_rn", root],
+            capture_output=True, text=True,
+        )
+        if p.returncode != 0:
+            return f"rename transformation failed: {p.stderr[-200:]}"
+        return None
     if "patch" in m:
         p = subprocess.run(
             ["patch", "-p1", "-s", "--no-backup-if-mismatch", "-d", root, "-i", m["patch"]],
@@ -100,6 +108,9 @@ def run_one(m):
             ignore=shutil.ignore_patterns("__pycache__", "*.pyc", "*.pgc"),
         )
         err = apply_edit(tmp, m)
+        if not err and os.environ.get("PGV_SELFCHECK_RENAME") == "1" and not m.get("transform"):
+            # experiment: every variant additionally has all its locals renamed
+            err = apply_edit(tmp, {"transform": "rename-locals"})
         if err:
             return {"id": m["id"], "prop": m["prop"], "kind": m["kind"], "verdict": "skipped", "why": err}
         os.environ["PGV_EVIDENCE"] = os.path.join(tmp, "evidence.json")
@@ -178,6 +189,7 @@ def run_for_property(prop, rep=None):
     current tree.  Appends the outcome to the evidence file.  Returns 0, or 2 if a
     fault is not detected / a refactor is not silent (checker broken, never VIOLATION)."""
     ms = [m for m in _load_mutants() + _seeded() if m["prop"] == prop]
+    ms.append({"id": f"{prop}.b-rename-all-locals", "prop": prop, "kind": "benign", "transform": "rename-locals"})
     clean_fires = rep is not None and any(r.violations or r.error for r in rep.rules)
     t0 = time.time()
     if clean_fires:
@@ -253,6 +265,10 @@ def main(args):
             props.append(args[i])
             i += 1
     ms = _load_mutants() + _seeded()
+    ms += [
+        {"id": f"C{i:02d}.b-rename-all-locals", "prop": f"C{i:02d}", "kind": "benign", "transform": "rename-locals"}
+        for i in range(1, 21)
+    ]
     if props:
         ms = [m for m in ms if m["prop"] in props]
     if ids:
